@@ -268,6 +268,52 @@ fn c03_enter_wakes() {
 }
 
 // =========================================================================================
+// C12  c12.shared.drop_flushes — handles may outlive the Ring: an AsyncFd dropped after it only QUEUES its CLOSE
+//   (c07.drop); when the last handle goes away (Shared::drop) every request still queued is handed to the kernel
+//   before the ring is unmapped and closed, so no descriptor is left behind.  (F16)
+// =========================================================================================
+//@waker_stubs
+#[kani::proof]
+#[kani::unwind(6)] // the mapping ledger (4 entries) is searched by munmap; the fake ring's memory is not in it
+#[kani::stub(std::os::fd::OwnedFd::drop, crate::verif_env::owned_fd_drop)]
+fn c12_shared_drop_flushes() {
+    let h: u32 = kani::any();
+    let t: u32 = kani::any();
+    let len: u32 = kani::any();
+    kani::assume(ring_inv(h, t, len));
+    let kflags: u32 = kani::any();
+    let kernel_thread: bool = kani::any();
+    let mut ring = FakeSq::<1>::new(h, t, kflags);
+    let shared = ring.shared(len, kernel_thread, false);
+    let ret: i32 = kani::any();
+    kani::assume(ret >= -1);
+    unsafe {
+        env::E.enter_ret[0] = ret;
+        env::E.enter_errno[0] = libc::EBUSY;
+    }
+    env::skip_wake_blocked_futures();
+    env::real_shared_drop();
+    drop(ManuallyDrop::into_inner(shared));
+    let queued = t.wrapping_sub(h);
+    if queued != 0 {
+        assert!(unsafe { env::E.enter_n } >= 1, "requests still queued when the last handle is dropped are handed to the kernel");
+        let call = unsafe { env::E.enters[0] };
+        assert!(call.fd == RING_FD);
+        if kernel_thread {
+            assert!(call.flags & libc::IORING_ENTER_SQ_WAIT != 0, "kernel-thread ring: wait for the submission thread");
+        } else {
+            assert!(call.to_submit == queued, "all of them");
+        }
+        assert!(env::evat(0).0 == env::EV_ENTER, "before anything is unmapped or closed");
+    }
+    assert!(unsafe { env::E.close_n } == 1 && unsafe { env::E.closed[0] } == RING_FD, "ring fd closed exactly once");
+    assert!(env::evat(env::evn() - 1).0 == env::EV_CLOSE, "and last");
+    kani::cover!(queued != 0 && !kernel_thread && ret == -1, "flush fails: teardown continues");
+    kani::cover!(queued != 0 && kernel_thread, "kernel-thread ring");
+    kani::cover!(queued == 0, "nothing queued");
+}
+
+// =========================================================================================
 // ABI view of a submission entry for harness modules outside `io_uring` (whose `libc` module is private).
 // =========================================================================================
 pub(crate) mod abi {
@@ -347,6 +393,9 @@ fn c12_shared_new_drop() {
     params.sq_off.tail = kani::any();
     params.sq_off.flags = kani::any();
     kani::assume(params.sq_off.array <= 64 && params.sq_off.head <= 60 && params.sq_off.tail <= 60 && params.sq_off.flags <= 60);
+    // the ring words are u32s: the kernel hands out 4-byte aligned offsets (the teardown reads head and tail)
+    kani::assume(params.sq_off.head % 4 == 0 && params.sq_off.tail % 4 == 0 && params.sq_off.flags % 4 == 0);
+    env::real_shared_drop();
     params.flags = kani::any();
     let fail: [bool; 2] = [kani::any(), kani::any()];
     let fail_adv: [bool; 2] = [kani::any(), kani::any()];
